@@ -64,6 +64,9 @@ func Available() []string {
 }
 
 func classify(out string) string {
+	if strings.TrimSpace(out) == "" {
+		return "timeout" // killed by the CPU-time limit before answering
+	}
 	for _, line := range strings.Split(out, "\n") {
 		line = strings.TrimSpace(line)
 		switch line {
@@ -88,8 +91,15 @@ func classify(out string) string {
 // (check-sat); a model query is re-run on the deciding solver when sat.
 func Run(file string, timeout time.Duration, seed int, only string, all bool) Result {
 	start := time.Now()
-	ctx, cancel := context.WithTimeout(context.Background(), timeout+2*time.Second)
+	// The budget is CPU time per solver process (ulimit -t), so that a loaded machine does not
+	// turn provable obligations into timeouts; wall-clock limits are only a generous backstop.
+	const wallFactor = 8
+	ctx, cancel := context.WithTimeout(context.Background(), wallFactor*timeout+5*time.Second)
 	defer cancel()
+	cpuSec := int((timeout + time.Second - 1) / time.Second)
+	if cpuSec < 1 {
+		cpuSec = 1
+	}
 	type ans struct {
 		solver, status, out string
 		dur                 float64
@@ -101,7 +111,12 @@ func Run(file string, timeout time.Duration, seed int, only string, all bool) Re
 		go func() {
 			defer wg.Done()
 			t0 := time.Now()
-			cmd := exec.CommandContext(ctx, s.bin, s.args(file, int(timeout/time.Millisecond), seed)...)
+			args := s.args(file, wallFactor*int(timeout/time.Millisecond), seed)
+			sh := "ulimit -t " + itoa(cpuSec) + "; exec " + s.bin
+			for _, a := range args {
+				sh += " '" + strings.ReplaceAll(a, "'", "'\\''") + "'"
+			}
+			cmd := exec.CommandContext(ctx, "/bin/sh", "-c", sh)
 			var buf bytes.Buffer
 			cmd.Stdout = &buf
 			cmd.Stderr = &buf
@@ -142,10 +157,19 @@ func Run(file string, timeout time.Duration, seed int, only string, all bool) Re
 	for pending > 0 {
 		select {
 		case <-stagger.C:
-			for launched < len(use) {
+			// second wave: two more strategies; the rest follows after another two seconds
+			wave := 2
+			if all || launched > 1 {
+				wave = len(use)
+			}
+			for launched < len(use) && wave > 0 {
 				launch(use[launched])
 				launched++
 				pending++
+				wave--
+			}
+			if launched < len(use) {
+				stagger.Reset(2 * time.Second)
 			}
 		case a := <-ch:
 			pending--
